@@ -4,6 +4,8 @@ import (
 	"strings"
 
 	"github.com/vektah/gqlparser/v2/ast"
+
+	"github.com/99designs/gqlgen/graphql"
 )
 
 type Type struct {
@@ -118,8 +120,40 @@ func defaultValue(value *ast.Value) *string {
 	if value == nil {
 		return nil
 	}
-	val := value.String()
+	var sb strings.Builder
+	writeValue(&sb, value)
+	val := sb.String()
 	return &val
+}
+
+// writeValue prints a const value like ast.Value.String does, except that strings are
+// quoted with the escapes GraphQL has (strconv.Quote also produces \a, \v, \xNN, \UNNNNNNNN)
+func writeValue(sb *strings.Builder, value *ast.Value) {
+	switch value.Kind {
+	case ast.StringValue, ast.BlockValue:
+		graphql.MarshalString(value.Raw).MarshalGQL(sb)
+	case ast.ListValue:
+		sb.WriteByte('[')
+		for i, elem := range value.Children {
+			if i > 0 {
+				sb.WriteByte(',')
+			}
+			writeValue(sb, elem.Value)
+		}
+		sb.WriteByte(']')
+	case ast.ObjectValue:
+		sb.WriteByte('{')
+		for i, elem := range value.Children {
+			if i > 0 {
+				sb.WriteByte(',')
+			}
+			sb.WriteString(elem.Name + ":")
+			writeValue(sb, elem.Value)
+		}
+		sb.WriteByte('}')
+	default:
+		sb.WriteString(value.String())
+	}
 }
 
 func (t *Type) Interfaces() []Type {
